@@ -18,8 +18,8 @@
    shown necessary by a witness that satisfies all the others (c08_trigger_*_needed). *)
 From Coq Require Import ZArith NArith List Bool Lia.
 From Tinode Require Import Base.Util Pure.Acs Sys.Topic Sys.TopicTac Sys.TopicFrame Sys.TopicNum Sys.TopicNumThm Sys.TopicInst
-  Sys.TopicCoh Sys.TopicCohProofs Sys.TopicCohStep Sys.TopicCohRun Sys.TopicCohQuery Sys.TopicCohWit
-  Sys.TopicCohReject Sys.TopicCohAck Sys.TopicCohWit2 Sys.TopicCohKeys Sys.TopicCohBisim.
+  Sys.TopicCohC08 Sys.TopicCohC08Proofs Sys.TopicCohC08Step Sys.TopicCohC08Run Sys.TopicCohC08Query Sys.TopicCohC08Wit
+  Sys.TopicCohC08Reject Sys.TopicCohC08Ack Sys.TopicCohC08Wit2 Sys.TopicCohC08Keys Sys.TopicCohC08Bisim.
 Import ListNotations.
 Open Scope Z_scope.
 
